@@ -21,8 +21,18 @@ fn angle_defined(p: &Params, pr: Prayer) -> Option<f64> {
 pub fn judge(ctx: &Ctx, l: &mut Local, p: &Params, site: Site, date: NaiveDate) {
     let r = pt(p, site.loc(), date, None);
     l.evals += 1;
+    if judge_result(ctx, l, p, site, date, &r) {
+        l.nontrivial += 1;
+    }
+    if ctx.want_sample() && date == ymd(2000, 3, 1) {
+        ctx.sample(json!({"site": site, "date": date_json(date), "angles": [p.angles[&Prayer::Fajr], p.angles[&Prayer::Isha], p.angles[&Prayer::Imsaak]], "result": fmt_r(&r)}));
+    }
+}
+
+/// the altitude / side-of-noon clauses on one result; returns whether any angle-defined time was judged
+pub fn judge_result(ctx: &Ctx, l: &mut Local, p: &Params, site: Site, date: NaiveDate, r: &R) -> bool {
     let case = || PtCase::new(p, site, date);
-    let Some(sd) = secs(&r, Prayer::Dhuhr) else { return };
+    let Some(sd) = secs(r, Prayer::Dhuhr) else { return false };
     let dec0 = refm::dec_local_midnight(date, site.gmt);
     let jd_dhuhr = refm::jd_of(date, sd as f64 + 0.5, site.gmt);
     let inst_ok = (site.gmt - site.lon / 15.0).abs() <= 4.0;
@@ -50,12 +60,7 @@ pub fn judge(ctx: &Ctx, l: &mut Local, p: &Params, site: Site, date: NaiveDate) 
             ctx.violation("side_of_noon", &format!("{}_{}", name, case().key()), case().to_value(), json!({"prayer": name, "offset_from_dhuhr_s": o, "result": fmt_r(&r)}));
         }
     }
-    if any {
-        l.nontrivial += 1;
-    }
-    if ctx.want_sample() && date == ymd(2000, 3, 1) {
-        ctx.sample(json!({"site": site, "date": date_json(date), "angles": [p.angles[&Prayer::Fajr], p.angles[&Prayer::Isha], p.angles[&Prayer::Imsaak]], "result": fmt_r(&r)}));
-    }
+    any
 }
 
 pub const IMSAAK_ANGLES: [f64; 5] = [0.5, 1.0, 1.5, 2.0, 3.0];
@@ -77,6 +82,7 @@ pub fn judge_chain(ctx: &Ctx, l: &mut Local, site: Site, date: NaiveDate, full_p
         let p = custom(a, a, 1.5);
         let r = pt(&p, site.loc(), date, None);
         l.evals += 1;
+        judge_result(ctx, l, &p, site, date, &r);
         fajr.push((a, off(&r, Prayer::Fajr)));
         isha.push((a, off(&r, Prayer::Isha)));
         // Imsaak chain for this Fajr angle
